@@ -135,7 +135,7 @@ func (e *Env) record(c *Chain, act interface{}, run func() (int, string)) int {
 		}
 	}
 	obs := e.observe(c, class, errs)
-	e.steps = append(e.steps, Step{Chain: c.idx, Env: env, Act: act, Obs: obs})
+	e.steps = append(e.steps, Step{Chain: c.idx, Env: env, Op: e.curOp, Act: act, Obs: obs})
 	return class
 }
 
